@@ -496,6 +496,9 @@ func TestVerifRace_C13_race(t *testing.T) {
 			}
 			c.Check(leftOpen == 0, "race-no-stream-left-open", "%d of %d inbound streams neither reset nor closed after the final switch to client mode", leftOpen, len(streams))
 			for _, st := range streams {
+				if !st.L.Dead() {
+					st.E.Reset() // already reported above; unblock its handler
+				}
 				<-st.Done // a stuck handler ends in the wall-clock watchdog (inconclusive), never in a verdict
 				vInPanicCheck(c, st, "no-panic")
 			}
